@@ -1,5 +1,6 @@
+\* OPEN finding F1-usize: the current arithmetic with bounds above CMAX admitted must still fail
 CONSTANTS BODY = "B"  TNEG = 0  TMAX = 31  CNEG = 16  CMAX = 15  BNEG = 0  BHI = 31
-          MAXELEMS = 8  MAXPEERS = 6  REVERSED = FALSE  NEARMAX = TRUE  WRAPPED = TRUE
+          MAXELEMS = 8  MAXPEERS = 6  FIX_REVERSED = TRUE  FIX_CLAMP_START = TRUE  WRAPPED = TRUE
 SPECIFICATION Spec
 INVARIANTS C15_Range
 CHECK_DEADLOCK FALSE
